@@ -1143,6 +1143,19 @@ def instantiate(I, state, frame, bi, tmpl, span, anonymous=False, tag=""):
         if anonymous:
             return [(key(None, roles), state)]
         return [(bind_key(I, state, sym, roles), state)]
+    if k == "nbredges":
+        out = []
+        centre, inner = tmpl[1], tmpl[2]
+        for (nk, st) in instantiate(I, state, frame, bi, inner, span, anonymous, tag):
+            ck = centre if centre is not None else TOP
+            if inner[3] == "Incoming":
+                a_, b_ = nk, ck
+            else:
+                a_, b_ = ck, nk
+            er = edge_root(a_, b_) if (a_[0] == "key" and b_[0] == "key") else None
+            w = ref(er, ()) if (er is not None and er[1] is not None and er[2] is not None) else TOP
+            out.append((adt("tuple", {0: (a_, b_, w)}), st))
+        return out
     if k == "alledges":
         sa = fresh_sym(I, frame, bi, "ea" + tag)
         sb = fresh_sym(I, frame, bi, "eb" + tag)
@@ -1373,6 +1386,20 @@ def m_neighbors(I, state, frame, bi, t, args, span):
     tm = ("nbr", k[1] if k[0] == "key" else None, k[2] if k[0] == "key" else frozenset(), d)
     if getattr(I.cfg, "nonempty_nbrs", False):
         tm = ("fresh", tm)       # case 'the job has at least one neighbour' (the uniform-neighbourhood partition)
+    return [(("iter", tm), state)]
+
+
+@model("petgraph::graphmap::GraphMap::<N, E, Ty>::edges_directed", "petgraph::graphmap::GraphMap::<N, E, Ty>::edges")
+def m_edges_directed(I, state, frame, bi, t, args, span):
+    """(source, target, &weight) for every edge at the node: the neighbour enumeration with the edge attached"""
+    k = args[1]
+    d = direction_of(I, args[2]) if len(args) > 2 else "Outgoing"
+    I.rec.put("neighbors", I.sitekey(frame, bi, -1),
+              dict(fn=frame.body.name, bb=bi, span=span, key=(k[1], k[2]) if k[0] == "key" else (None, frozenset()), dir=d,
+                   stack=frame.stack))
+    tm = ("nbredges", k if k[0] == "key" else None, ("nbr", k[1] if k[0] == "key" else None, k[2] if k[0] == "key" else frozenset(), d))
+    if getattr(I.cfg, "nonempty_nbrs", False):
+        tm = ("fresh", tm)
     return [(("iter", tm), state)]
 
 
